@@ -185,12 +185,15 @@ impl<T> MerkleTree<T> {
             r@.history == (if leaves@.len() == 0 { Seq::<Seq<Seq<u8>>>::empty() } else { seq![Seq::<Seq<u8>>::empty()] }),
     { unimplemented!() }
 
+    /// (rs_merkle returns `&mut Self` for chaining; every call site in /repo
+    /// discards it, so the stand-in returns `()`)
     #[verifier::external_body]
     pub fn insert(&mut self, leaf: [u8; 32])
         ensures final(self)@ == (MerkleTreeV { uncommitted: old(self)@.uncommitted.push(leaf@), ..old(self)@ }),
     { unimplemented!() }
 
     /// `Vec::append`: moves all hashes, leaves the argument empty
+    /// (return value `&mut Self` dropped as for `insert`)
     #[verifier::external_body]
     pub fn append(&mut self, leaves: &mut Vec<[u8; 32]>)
         ensures
@@ -292,4 +295,13 @@ pub fn vgather<T: Copy>(ls: &[T], idx: &[usize]) -> (r: Vec<T>)
     ensures r@ == gather(ls@, idx@),
 {
     idx.iter().filter_map(|i| ls.get(*i).cloned()).collect::<Vec<_>>()
+}
+
+/// R12: `$s.to_vec()` at element types that are `Copy` (usize, [u8; 32]):
+/// a vector holding the same elements
+#[verifier::external_body]
+pub fn vto_vec<T: Copy>(s: &[T]) -> (r: Vec<T>)
+    ensures r@ == s@,
+{
+    s.to_vec()
 }
